@@ -357,6 +357,82 @@ def spin_content(reaction) -> str:
     return ";".join(parts)
 
 
+def synth_multi_topology_general(seed: int, formalism: str = "helicity"):
+    """Random three-body reaction with 2-3 topologies (any pairs), random spins incl. scalar resonances, so that
+    the topologies generally realise *different* sets of outer helicity combinations."""
+    import attrs
+    from qrules.quantum_numbers import InteractionProperties  # noqa: PLC0415
+    from qrules.topology import FrozenTransition, create_isobar_topologies  # noqa: PLC0415
+    from qrules.transition import ReactionInfo, State  # noqa: PLC0415
+
+    rng = np.random.default_rng([seed, 78])
+    base = create_isobar_topologies(3)[0]
+    res_edge = next(iter(base.intermediate_edge_ids))
+    kids = sorted(base.get_edge_ids_outgoing_from_node(base.edges[res_edge].ending_node_id))
+    bach = next(i for i in base.outgoing_edge_ids if i not in kids)
+    fermions = bool(rng.uniform() < 0.5)
+    if fermions:
+        s_fin = [Fraction(1, 2), Fraction(1, 2), Fraction(int(rng.integers(0, 2)))]
+        s_init = Fraction(int(rng.integers(0, 2)))
+    else:
+        s_fin = [Fraction(int(rng.integers(0, 2))), Fraction(int(rng.integers(0, 2))), Fraction(0)]
+        s_init = Fraction(int(rng.integers(0, 3)))
+    order = list(rng.permutation(3))
+    s_fin = [s_fin[i] for i in order]
+    masses = [float(np.round(rng.uniform(0.2, 0.6), 3)) for _ in range(3)]
+    init = make_particle("A", s_init, -1, float(np.round(sum(masses) + rng.uniform(1.0, 2.0), 3)), pid=100)
+    finals = {i: make_particle(f"F{i}", s_fin[i], [1, -1][i % 2], masses[i], pid=101 + i) for i in range(3)}
+    all_pairs = [(0, 1), (0, 2), (1, 2)]
+    n_top = int(rng.integers(2, 4))
+    pairs = [all_pairs[i] for i in sorted(rng.choice(3, n_top, replace=False))]
+    transitions = []
+    for k, pair in enumerate(pairs):
+        other = ({0, 1, 2} - set(pair)).pop()
+        mapping = {bach: other, kids[0]: pair[0], kids[1]: pair[1]}
+        top = attrs.evolve(base, edges={mapping.get(i, i): e for i, e in base.edges.items()})
+        two_s = int(2 * (finals[pair[0]].spin + finals[pair[1]].spin)) % 2
+        s_res = Fraction(two_s + 2 * int(rng.integers(0, 2)), 2) if two_s else Fraction(int(rng.integers(0, 3)))
+        mres = float(np.round(masses[pair[0]] + masses[pair[1]] + rng.uniform(0.2, 0.6), 3))
+        res = make_particle(f"R{k}", s_res, 1, mres, 0.1 + 0.05 * k, pid=110 + k)
+        part = {next(iter(top.incoming_edge_ids)): init, res_edge: res, **finals}
+        ranges = {e: spin_range(Fraction(part[e].spin).limit_denominator(2)) for e in top.edges}
+        edge_ids = sorted(top.edges)
+        nodes = sorted(top.nodes)
+        for combo in itertools.product(*[ranges[e] for e in edge_ids]):
+            lam = dict(zip(edge_ids, combo))
+            ok = True
+            for n in nodes:
+                pin = next(iter(top.get_edge_ids_ingoing_to_node(n)))
+                c1, c2 = sorted(top.get_edge_ids_outgoing_from_node(n))
+                if abs(lam[c1] - lam[c2]) > Fraction(part[pin].spin).limit_denominator(2):
+                    ok = False
+            if not ok:
+                continue
+            states = {e: State(part[e], float(lam[e])) for e in edge_ids}
+            if formalism == "helicity":
+                transitions.append(FrozenTransition(top, states, {n: InteractionProperties() for n in nodes}))
+            else:
+                opts = []
+                for n in nodes:
+                    pin = next(iter(top.get_edge_ids_ingoing_to_node(n)))
+                    c1, c2 = sorted(top.get_edge_ids_outgoing_from_node(n))
+                    J, s1, s2 = (Fraction(part[e].spin).limit_denominator(2) for e in (pin, c1, c2))
+                    o = []
+                    S = abs(s1 - s2)
+                    while S <= s1 + s2:
+                        for L in range(0, 4):
+                            if abs(L - S) <= J <= L + S and abs(lam[c1] - lam[c2]) <= S:
+                                o.append((L, S))
+                        S += 1
+                    opts.append(o[:3])
+                for ls in itertools.product(*opts):
+                    inter = {n: InteractionProperties(l_magnitude=L, l_projection=0, s_magnitude=S, s_projection=0) for n, (L, S) in zip(nodes, ls)}
+                    transitions.append(FrozenTransition(top, states, inter))
+    if not transitions or len(transitions) > 300:
+        return None
+    return ReactionInfo(transitions, formalism=formalism)
+
+
 def synth_multi_topology(seed: int, pairs=((0, 1), (0, 2)), half_integer: bool = False, formalism: str = "helicity"):
     """Three-body reaction with one resonance per listed pair (several topologies, shared outer particles).
 
